@@ -4931,6 +4931,11 @@ class ResponseFuture(object):
             self._metrics.request_timer.addValue(time.time() - self._start_time)
 
         with self._callback_lock:
+            if self._final_result is not _NOT_SET or self._final_exception is not None:
+                # the request already completed (e.g. another speculative execution
+                # answered first, or the client timeout fired); ignore this response
+                log.debug("Ignoring result for already completed request: %r", response)
+                return
             self._final_result = response
             # save off current callbacks inside lock for execution outside it
             # -- prevents case where _final_result is set, then a callback is
@@ -4953,6 +4958,10 @@ class ResponseFuture(object):
             self._metrics.request_timer.addValue(time.time() - self._start_time)
 
         with self._callback_lock:
+            if self._final_result is not _NOT_SET or self._final_exception is not None:
+                # the request already completed; its outcome is delivered only once
+                log.debug("Ignoring error for already completed request: %r", response)
+                return
             self._final_exception = response
             # save off current errbacks inside lock for execution outside it --
             # prevents case where _final_exception is set, then an errback is
